@@ -13,6 +13,7 @@ extern crate rustc_middle;
 extern crate rustc_span;
 
 use rustc_driver::{Callbacks, Compilation};
+use rustc_hir as hir;
 use rustc_hir::def::DefKind;
 use rustc_hir::def_id::{DefId, LOCAL_CRATE};
 use rustc_middle::mir::{
@@ -522,13 +523,15 @@ impl<'tcx> Cx<'tcx> {
                     out.push(',');
                 }
                 let fty = tcx.type_of(f.did).instantiate_identity().skip_norm_wip();
+                let (ffile, fline) = self.loc(tcx.def_span(f.did));
                 let _ = write!(
                     out,
-                    "{{\"name\":{},\"ty\":{},\"pub\":{},\"attrs\":{}}}",
+                    "{{\"name\":{},\"ty\":{},\"pub\":{},\"file\":{},\"line\":{}}}",
                     esc(&f.name.to_string()),
                     esc(&self.ty_s(fty)),
                     f.vis.is_public(),
-                    self.attrs(f.did)
+                    esc(&ffile),
+                    fline
                 );
             }
             out.push_str("]}");
@@ -538,15 +541,21 @@ impl<'tcx> Cx<'tcx> {
 
     fn attrs(&self, did: DefId) -> String {
         let mut v: Vec<String> = Vec::new();
-        if let Some(ldid) = did.as_local() {
-            let hir_id = self.tcx.local_def_id_to_hir_id(ldid);
-            for a in self.tcx.hir_attrs(hir_id) {
-                let s = format!("{:?}", a);
-                // keep it small and only tool/helper attributes of interest
-                if s.contains("serde") || s.contains("prost") {
-                    let sm = self.tcx.sess.source_map();
-                    let text = sm.span_to_snippet(a.span()).unwrap_or_else(|_| String::new());
-                    v.push(esc(&text));
+        if did.as_local().is_some() {
+            #[allow(deprecated)]
+            for a in self.tcx.get_all_attrs(did) {
+                if std::env::var("SOZU_FACTS_DEBUG_ATTRS").is_ok() {
+                    eprintln!("ATTR {:?} => {:?}", self.path(did), a);
+                }
+                if let hir::Attribute::Unparsed(item) = a {
+                    let path: Vec<String> =
+                        item.path.segments.iter().map(|s| s.to_string()).collect();
+                    let path = path.join("::");
+                    if path == "serde" || path == "prost" {
+                        let sm = self.tcx.sess.source_map();
+                        let text = sm.span_to_snippet(item.span).unwrap_or_else(|_| path.clone());
+                        v.push(esc(&text));
+                    }
                 }
             }
         }
